@@ -7,6 +7,8 @@ mod case;
 mod ctx;
 mod driver;
 mod findings;
+mod fsmodel;
+mod walkrun;
 mod gen;
 mod monitors;
 mod prng;
